@@ -41,10 +41,12 @@
 From Coq Require Import List Arith Bool.
 Import ListNotations.
 
-Inductive fname := Last | Tmp | Log.          (* last.pkl | last.pkl.tmp | minisanity.txt *)
+(* last.pkl | last.pkl.tmp | minisanity.txt | the file a string-valued `resume` points to (outside
+   the output directory; the driver only reads it) *)
+Inductive fname := Last | Tmp | Log | Ext.
 
 Definition fname_eqb (a b : fname) : bool :=
-  match a, b with Last, Last | Tmp, Tmp | Log, Log => true | _, _ => false end.
+  match a, b with Last, Last | Tmp, Tmp | Log, Log | Ext, Ext => true | _, _ => false end.
 
 Section Driver.
 Variable St : Type.
@@ -72,13 +74,13 @@ Inductive op :=
 | Replace (src dst : fname).                      (* os.replace(src, dst) *)
 
 Definition fget (f : fname) (d : disk) : option content :=
-  match f with Last => d_last d | Tmp => d_tmp d | Log => None end.
+  match f with Last => d_last d | Tmp => d_tmp d | Log | Ext => None end.
 
 Definition fset (f : fname) (c : option content) (d : disk) : disk :=
   match f with
   | Last => mkDisk c (d_tmp d) (d_log d)
   | Tmp => mkDisk (d_last d) c (d_log d)
-  | Log => d
+  | Log | Ext => d
   end.
 
 Definition set_log (l : option nat) (d : disk) : disk := mkDisk (d_last d) (d_tmp d) l.
@@ -159,32 +161,51 @@ Fixpoint loop (fuel : nat) (s : St) : list op * St :=
 Definition isfile (f : fname) (d : disk) : bool :=
   match fget f d with Some _ => true | None => false end.
 
-(* the resume branch: None = pickle.load raised *)
-Definition start (resume : bool) (d : disk) : option St :=
-  if resume && isfile Last d
-  then match d_last d with Some (Valid s) => Some s | _ => None end
-  else Some init.
+(* The `resume` argument: False | True | a string.  For a string,
+       resume_fn = resume if isinstance(resume, str) and os.path.isfile(resume) else last_fn
+   so [RPath (Some s)] = a path naming an existing file that holds a complete pickle of s (it lies
+   outside the output directory and is never written by the driver: its content is a constant of
+   the scenario), [RPath None] = a string that names no existing file (falls back to last.pkl). *)
+Inductive rmode := RNo | RYes | RPath (p : option St).
 
-Definition prelude (resume : bool) (d : disk) : list op :=
-  (if resume && isfile Last d then [OpenR Last; CloseR Last] else [])
-  ++ [Makedirs] ++ (if resume then [] else [OpenW Log; Close Log]).
+Definition is_res (r : rmode) : bool := match r with RNo => false | _ => true end.
+
+(* the resume branch: None = pickle.load raised *)
+Definition start (r : rmode) (d : disk) : option St :=
+  match r with
+  | RPath (Some s) => Some s                          (* `if resume and os.path.isfile(resume_fn)`: load it *)
+  | _ =>
+      if is_res r && isfile Last d
+      then match d_last d with Some (Valid s) => Some s | _ => None end
+      else Some init
+  end.
+
+Definition prelude (r : rmode) (d : disk) : list op :=
+  (match r with
+   | RPath (Some _) => [OpenR Ext; CloseR Ext]
+   | _ => if is_res r && isfile Last d then [OpenR Last; CloseR Last] else []
+   end)
+  ++ [Makedirs] ++ (if is_res r then [] else [OpenW Log; Close Log]).
 
 (* operations and outcome of one run of the driver started on disk d *)
-Definition run (resume : bool) (n : nat) (d : disk) : list op * outcome :=
-  match start resume d with
+Definition run (r : rmode) (n : nat) (d : disk) : list op * outcome :=
+  match start r d with
   | None => ([OpenR Last; CloseR Last], Stuck)
-  | Some s => let r := loop (n - nit s) s in (prelude resume d ++ fst r, Ok (snd r))
+  | Some s => let l := loop (n - nit s) s in (prelude r d ++ fst l, Ok (snd l))
   end.
 
 (* the disk after the run was killed at crash point (k, lost) *)
-Definition crashed (resume : bool) (n : nat) (d : disk) (k : nat) (lost : bool) : disk :=
-  crash k lost (fst (run resume n d)) d.
+Definition crashed (r : rmode) (n : nat) (d : disk) (k : nat) (lost : bool) : disk :=
+  crash k lost (fst (run r n d)) d.
 
-(* a first run (resume = r0) killed, then restarted with resume = True and killed again, ... *)
-Fixpoint chain (n : nat) (r0 : bool) (cps : list (nat * bool)) (d : disk) : disk :=
+(* the restart: resume=True, or the same string again *)
+Definition restart (r0 : rmode) : rmode := match r0 with RPath p => RPath p | _ => RYes end.
+
+(* a first run (resume = r0) killed, then restarted with resume enabled and killed again, ... *)
+Fixpoint chain (n : nat) (r0 : rmode) (cps : list (nat * bool)) (d : disk) : disk :=
   match cps with
   | [] => d
-  | (k, lost) :: t => chain n true t (crashed r0 n d k lost)
+  | (k, lost) :: t => chain n (restart r0) t (crashed r0 n d k lost)
   end.
 End Protocol.
 End Driver.
@@ -203,6 +224,9 @@ Arguments WriteState {St}.
 Arguments Close {St}.
 Arguments CloseR {St}.
 Arguments Replace {St}.
+Arguments RNo {St}.
+Arguments RYes {St}.
+Arguments RPath {St}.
 
 (* ---- the instance the correspondence check runs: states are iteration counters ---- *)
 Inductive tok :=
@@ -262,28 +286,28 @@ Definition irun := run nat S 0 (fun s => s) body.
 Definition ichain := chain nat S 0 (fun s => s) body.
 
 (* the operation sequence of a run started on the disk left by the crash chain *)
-Definition trace_ok (n : nat) (r0 : bool) (cps : list (nat * bool)) (resume : bool) (observed : list tok) : bool :=
+Definition trace_ok (n : nat) (r0 : rmode nat) (cps : list (nat * bool)) (resume : rmode nat) (observed : list tok) : bool :=
   toks_eqb (map tok_of (fst (irun resume n (ichain n r0 cps (empty_disk nat))))) observed.
 
 (* a run that was killed before its operation number k performed exactly the first k operations *)
-Definition killed_trace_ok (n : nat) (r0 : bool) (cps : list (nat * bool)) (resume : bool) (k : nat) (observed : list tok) : bool :=
+Definition killed_trace_ok (n : nat) (r0 : rmode nat) (cps : list (nat * bool)) (resume : rmode nat) (k : nat) (observed : list tok) : bool :=
   toks_eqb (firstn k (map tok_of (fst (irun resume n (ichain n r0 cps (empty_disk nat)))))) observed.
 
 (* what is on disk after the crash chain *)
-Definition disk_ok (n : nat) (r0 : bool) (cps : list (nat * bool))
+Definition disk_ok (n : nat) (r0 : rmode nat) (cps : list (nat * bool))
            (last : lastobs) (tmp_present log_present : bool) : bool :=
   let d := ichain n r0 cps (empty_disk nat) in
   lastobs_eqb (obs_last d) last && Bool.eqb (present (d_tmp nat d)) tmp_present
   && Bool.eqb (present (d_log nat d)) log_present.
 
 (* outcome of the final resumed run: None = raised, Some j = returned a state with nit = j *)
-Definition outcome_ok (n : nat) (r0 : bool) (cps : list (nat * bool)) (resume : bool) (observed : option nat) : bool :=
+Definition outcome_ok (n : nat) (r0 : rmode nat) (cps : list (nat * bool)) (resume : rmode nat) (observed : option nat) : bool :=
   match snd (irun resume n (ichain n r0 cps (empty_disk nat))), observed with
   | Stuck, None => true
   | Ok j, Some i => Nat.eqb i j
   | _, _ => false
   end.
 
-Definition n_ops (n : nat) (r0 : bool) (cps : list (nat * bool)) (resume : bool) : nat :=
+Definition n_ops (n : nat) (r0 : rmode nat) (cps : list (nat * bool)) (resume : rmode nat) : nat :=
   length (fst (irun resume n (ichain n r0 cps (empty_disk nat)))).
 End Instance.
